@@ -121,7 +121,9 @@ func (v bindata) fill(data []byte, i int) int {
 
 func (v *bindata) UnmarshalBinary(data []byte) error {
 	var length wuint16
-	_ = length.UnmarshalBinary(data)
+	if err := length.UnmarshalBinary(data); err != nil {
+		return unmarshalErr(v, "", "missing data")
+	}
 	if len(data) < int(length)+2 {
 		return unmarshalErr(v, "", "missing data")
 	}
@@ -353,6 +355,9 @@ func (v wuint16) fill(data []byte, i int) int {
 }
 
 func (v *wuint16) UnmarshalBinary(data []byte) error {
+	if len(data) < 2 {
+		return unmarshalErr(v, "", "missing data")
+	}
 	*v = wuint16(binary.BigEndian.Uint16(data))
 	return nil
 }
@@ -380,6 +385,9 @@ func (v wuint32) fill(data []byte, i int) int {
 }
 
 func (v *wuint32) UnmarshalBinary(data []byte) error {
+	if len(data) < 4 {
+		return unmarshalErr(v, "", "missing data")
+	}
 	*v = wuint32(binary.BigEndian.Uint32(data))
 	return nil
 }
